@@ -7,6 +7,10 @@ import ESRVerif.Driver.Util
   `rwut <unary,> <binary,> <labels> <shape digits> <try_idx>` → model of update_tree:
         `none` | `err` | `one <labels> <shape>` | `many <labels>:<shape>;…`
   `rwpc <labels>`                                    → number of pow-set labels (termination measure)
+  `rwcand <labels>`                                  → the candidate table of update_tree as its five parallel lists
+        (model `UT.detectPar`): `special=<,> diff1=<,> diff2=<,> num1=<,> num2=<,>` (numbers `*k` `/k` `None`) | `err`
+  `rwutp <unary,> <binary,> <labels> <shape digits> <try_idx>` → as `rwut`, computed by the parallel-list spelling
+        `UT.updateTreePar` (proved equal to `updateTree` in Props/C11c; printed so that the executable agrees too)
 Lists are comma separated, `_` is the empty list. -/
 namespace ESR.Driver.Rewrite
 open ESR ESR.Driver ESR.Rewrite
@@ -37,6 +41,25 @@ def handle : Handler
       let fmt (L : List String) (S : List Nat) (sep : String) : String :=
         ",".intercalate L ++ sep ++ String.join (S.map toString)
       match UT.updateTree (strList a) S k ⟨strList b1, strList b2⟩ with
+      | .none => some "none"
+      | .error => some "err"
+      | .one L S' => some ("one " ++ fmt L S' " ")
+      | .many cs => some ("many " ++ ";".intercalate (cs.map fun c => fmt c.1 c.2 ":"))
+  | ["rwcand", a] =>
+      let ns (xs : List Nat) : String := if xs.isEmpty then "_" else ",".intercalate (xs.map toString)
+      let nm (xs : List (Option UT.Num)) : String :=
+        if xs.isEmpty then "_" else ",".intercalate (xs.map fun n => match n with
+          | none => "None" | some n => n.op ++ toString n.k)
+      match UT.detectPar (strList a) with
+      | none => some "err"
+      | some P => some ("special=" ++ ns P.special ++ " diff1=" ++ ns P.diff1 ++ " diff2=" ++ ns P.diff2
+                        ++ " num1=" ++ nm P.num1 ++ " num2=" ++ nm P.num2)
+  | ["rwutp", b1, b2, a, sh, k] => do
+      let k ← k.toNat?
+      let S ← digits sh
+      let fmt (L : List String) (S : List Nat) (sep : String) : String :=
+        ",".intercalate L ++ sep ++ String.join (S.map toString)
+      match UT.updateTreePar (strList a) S k ⟨strList b1, strList b2⟩ with
       | .none => some "none"
       | .error => some "err"
       | .one L S' => some ("one " ++ fmt L S' " ")
